@@ -520,15 +520,16 @@ package xmpp
 //@   requires recvOK(c)
 //@   requires keepaliveQuit != nil && !chanClosed(keepaliveQuit)
 //@   ensures [C12.quit,C18.recv.quit]  count(Close) >= old(count(Close)) + 1 && last(Close) == keepaliveQuit
-//@   ensures [C12.recv.noclose] count(Closed) - old(count(Closed)) == count(StreamErrRead) - old(count(StreamErrRead))
+//@   ensures [C12.recv.noclose] count(Closed) - old(count(Closed)) == count(StreamErrRead) - old(count(StreamErrRead)) && count(StreamErrRead) - old(count(StreamErrRead)) <= 1
+//@   ensures [C13.streamerror.closed] (count(StreamErrRead) > old(count(StreamErrRead))) ==> typeof(last(PacketRead)) == stanza.StreamError && newSpawns() + 1 == newReads() && last(Closed) == c.transport && (c.Handler != nil ==> atlast(Closed) < atlast(EventHandler)) && atlast(Closed) < atlast(ErrorHandler)
 //@   ensures [C05.once]  newSpawns() == newReads() || (newSpawns() + 1 == newReads() && !isStanza(last(PacketRead)))
 //@   ensures [C05.same]  forall(j, 0, newSpawns(), arg(Spawn_route, old(count(Spawn_route)) + j, 2) == arg(PacketRead, old(count(PacketRead)) + j) && arg(Spawn_route, old(count(Spawn_route)) + j, 1) == iface(c))
 //@   ensures [C05.acks]  count(AnswerSent) - old(count(AnswerSent)) == count(AckReqRead) - old(count(AckReqRead))
 //@   ensures [C09.count] c.Session.SMState.Inbound - old(c.Session.SMState.Inbound) == count(StanzaRead) - old(count(StanzaRead))
 //@   ensures [C05.spawns.only,C12.spawns.only] count(Spawn) - old(count(Spawn)) == newSpawns()
-//@   ensures [C13.close.reported] (newSpawns() + 1 == newReads() && typeof(last(PacketRead)) == stanza.StreamClosePacket) ==> c.CurrentState.state == StateDisconnected && count(ErrorHandler) - old(count(ErrorHandler)) == count(StreamErrRead) - old(count(StreamErrRead)) && (c.Handler != nil ==> count(EventHandler) - old(count(EventHandler)) == count(StreamErrRead) - old(count(StreamErrRead)) + 1 && last(EventHandler).State.state == StateDisconnected && last(EventHandler).SMState == c.Session.SMState)
-//@   ensures [C12.once]  !(newSpawns() + 1 == newReads() && typeof(last(PacketRead)) == stanza.StreamClosePacket) ==> count(ErrorHandler) - old(count(ErrorHandler)) == count(StreamErrRead) - old(count(StreamErrRead)) + 1 && c.CurrentState.state == StateDisconnected
-//@   ensures [C12.event] (!(newSpawns() + 1 == newReads() && typeof(last(PacketRead)) == stanza.StreamClosePacket) && c.Handler != nil) ==> count(EventHandler) - old(count(EventHandler)) == count(StreamErrRead) - old(count(StreamErrRead)) + 1 && last(EventHandler).State.state == StateDisconnected && last(EventHandler).SMState == c.Session.SMState && atlast(ErrorHandler) < atlast(EventHandler)
+//@   ensures [C13.close.reported] (newSpawns() + 1 == newReads() && typeof(last(PacketRead)) == stanza.StreamClosePacket) ==> c.CurrentState.state == StateDisconnected && count(ErrorHandler) == old(count(ErrorHandler)) && (c.Handler != nil ==> count(EventHandler) == old(count(EventHandler)) + 1 && last(EventHandler).State.state == StateDisconnected && last(EventHandler).SMState == c.Session.SMState)
+//@   ensures [C12.once]  !(newSpawns() + 1 == newReads() && typeof(last(PacketRead)) == stanza.StreamClosePacket) ==> count(ErrorHandler) == old(count(ErrorHandler)) + 1 && c.CurrentState.state == ite((count(StreamErrRead) > old(count(StreamErrRead))), StateStreamError, StateDisconnected)
+//@   ensures [C12.event] (!(newSpawns() + 1 == newReads() && typeof(last(PacketRead)) == stanza.StreamClosePacket) && c.Handler != nil) ==> count(EventHandler) == old(count(EventHandler)) + 1 && last(EventHandler).State.state == ite((count(StreamErrRead) > old(count(StreamErrRead))), StateStreamError, StateDisconnected) && (!(count(StreamErrRead) > old(count(StreamErrRead))) ==> last(EventHandler).SMState == c.Session.SMState && atlast(ErrorHandler) < atlast(EventHandler))
 //@   assigns c.Session.SMState.Inbound, c.Session.SMState.UnAckQueue.Uslice, c.CurrentState.state
 //@   elems c.Session.SMState.UnAckQueue.Uslice, c.router.IQResultRoutes
 //@   emits PacketRead, StanzaRead, AckReqRead, StreamErrRead, AnswerSent, Send, SendAttrs, Write, Spawn_route, Spawn, ErrorHandler, EventHandler, Close, HandlePacket, SendRaw, ChanSend, ChanSend_IQ, MapGet_IQResultRoutes, MapDel_IQResultRoutes, DecodeFailed, DecodedElement, TokenRead, Marshaled, Closed, Routed
@@ -546,9 +547,9 @@ package xmpp
 //@     invariant [C05.same]  forall(j, 0, newSpawns(), arg(Spawn_route, old(count(Spawn_route)) + j, 2) == arg(PacketRead, old(count(PacketRead)) + j) && arg(Spawn_route, old(count(Spawn_route)) + j, 1) == iface(c))
 //@     invariant [C05.acks]  count(AnswerSent) - old(count(AnswerSent)) == count(AckReqRead) - old(count(AckReqRead))
 //@     invariant [C09.count] c.Session.SMState.Inbound - old(c.Session.SMState.Inbound) == count(StanzaRead) - old(count(StanzaRead))
-//@     invariant [C12.recv.noclose] count(Closed) - old(count(Closed)) == count(StreamErrRead) - old(count(StreamErrRead))
-//@     invariant [C12.once,C13.close.reported]  count(ErrorHandler) - old(count(ErrorHandler)) == count(StreamErrRead) - old(count(StreamErrRead))
-//@     invariant [C12.event,C13.close.reported] c.Handler != nil ==> count(EventHandler) - old(count(EventHandler)) == count(StreamErrRead) - old(count(StreamErrRead))
+//@     invariant [C12.recv.noclose,C12.once,C12.event,C13.close.reported,C13.streamerror.closed] count(Closed) == old(count(Closed)) && count(StreamErrRead) == old(count(StreamErrRead))
+//@     invariant [C12.once,C13.close.reported]  count(ErrorHandler) == old(count(ErrorHandler))
+//@     invariant [C12.event,C13.close.reported] c.Handler != nil ==> count(EventHandler) == old(count(EventHandler))
 
 // ---------------------------------------------------------------------------
 // Session: stream features are decoded afresh on every stream (re)start (C14 "advertised", C03)
